@@ -124,6 +124,11 @@ func (c *Ctx) callSiteAsserts(fr *Frame, st *State, reach T, key string, pos tok
 		}
 		env.at = fmt.Sprintf("callsite %s in %s", key, funcKey(fr.fn))
 		g := env.evalBool(cl.Expr)
+		if cl.Assumed {
+			c.trust("premise assumed at the call of " + key + " in " + funcKey(fr.fn) + ": " + cl.Text)
+			c.sc.assume(imp(reach, g))
+			continue
+		}
 		c.oblige("callsite", c.siteName("site:"+key+":"+cl.name()), cl.Tags, reach, g, pos, cl.Text)
 	}
 }
